@@ -133,6 +133,10 @@ def tlc(module, cfg, workers=None, env=None, timeout=1800, simulate=None, depth=
     m = re.findall(r"(\d[\d,]*) states generated, (\d[\d,]*) distinct states found", r.out)
     if m:
         r.generated = int(m[-1][0].replace(",", "")); r.distinct = int(m[-1][1].replace(",", ""))
+    if simulate:
+        m = re.search(r"The number of states generated: (\d+)", r.out)
+        if m:
+            r.generated = r.distinct = int(m.group(1))
     m = re.search(r"Invariant (\S+) is violated", r.out) or re.search(r"Action property (\S+) is violated", r.out) \
         or re.search(r"Temporal properties were violated", r.out)
     if m:
